@@ -856,4 +856,38 @@ def rule_fresh(ctx):
     return r
 
 
-RULES = [rule_combine, rule_pair, rule_adder, rule_rescale, rule_scale, rule_option, rule_fresh]
+def rule_zeroshape(ctx):
+    """(finding F31) Per-slice results are *stacked* along sliced output indices, so every value the executor hands
+    back under exponent stripping must have the slice's shape.  Sibling agreement of the executor's returns: if one
+    `return (mantissa, exponent)` hands back an array, none hands back a bare number as mantissa — unless the
+    gatherer gives scalar chunks the common shape itself (`broadcast_to` / `zeros` / `zeros_like` / `full` before
+    the stack)."""
+    r = RuleResult("C19-ZEROSHAPE", "every stripped result has the shape of its slice", 1)
+    cc = ctx.p.cls(C.CONTRACT, "Contractor")
+    C.require(cc is not None, "Contractor not found")
+    f = cc.methods.get("__call__")
+    tc = ctx.p.cls(C.CORE, "ContractionTree")
+    g = tc.lookup("gather_slices")
+    C.require(f is not None and g is not None, "Contractor.__call__ / gather_slices not found")
+    rets = [n for n in walk_local(f.node) if isinstance(n, ast.Return) and isinstance(n.value, ast.Tuple) and len(n.value.elts) == 2]
+    C.require(rets, "Contractor.__call__: no (mantissa, exponent) return")
+    arrays = [n for n in rets if not isinstance(n.value.elts[0], ast.Constant)]
+    scalars = [n for n in rets if isinstance(n.value.elts[0], ast.Constant) and isinstance(n.value.elts[0].value, (int, float))]
+    stacks = [c for c in ast.walk(g.node) if isinstance(c, ast.Call) and ((dotted(c.func) or "").endswith("stack") or
+              (dotted(c.func) == "do" and c.args and isinstance(c.args[0], ast.Constant) and c.args[0].value in ("stack", "concatenate")))]
+    C.require(stacks, "gather_slices: stacking of the chunks not found")
+    repairs = [c for c in ast.walk(g.node) if isinstance(c, ast.Call) and (
+        (dotted(c.func) or "").split(".")[-1] in ("broadcast_to", "zeros", "zeros_like", "full", "full_like") or
+        (dotted(c.func) == "do" and c.args and isinstance(c.args[0], ast.Constant) and c.args[0].value in
+         ("broadcast_to", "zeros", "zeros_like", "full", "full_like")))]
+    k = ctx.key(f, "C19-ZEROSHAPE")
+    if scalars and arrays and not repairs:
+        r.violation(k, C.loc(f, scalars[0]), f"`{C.unparse(scalars[0])}`: the early exit hands back a bare number where the other exits hand back "
+                    "the result array; gather_slices stacks the per-slice results along sliced output indices, and a vanishing slice "
+                    "next to non-vanishing ones cannot be stacked (ValueError) although the total is non-zero")
+    else:
+        r.ok(k, C.loc(f, rets[0]), "all stripped returns hand back arrays (or the gatherer gives scalar chunks a shape)")
+    return r
+
+
+RULES = [rule_zeroshape, rule_combine, rule_pair, rule_adder, rule_rescale, rule_scale, rule_option, rule_fresh]
